@@ -124,7 +124,7 @@ class Wire:
         dgram = self.iface._build_bundle(t, [time, *elements]).dgram
         msgs = read_packet(dgram)
         self.log.append({'k': 'bundle', 't': -1 if time is None else int(round(time * 1000)),
-                         'm': msgs, 'port': target[1]})
+                         'm': msgs, 'port': target[1], 'sz': len(dgram)})
         self.nested = True
         try:
             r = self.orig_bundle(target, time, *elements)
@@ -399,9 +399,58 @@ class Runner:
         self.wire.log = em              # record() drains again
         self.record({'op': 'sync'}, ids, exc)
 
+    def bigbind(self, op):
+        """one bind() block of N commands on node h, each carrying its number 1..N as an argument value: 'small' = set('amp',
+        i); 'list' = setn('freq', [i, 0, 0, ...]) with op['len'] values; 'mixed' = every 50th is a list.  Optional sync after
+        command k, optional exception before command r.  Recorded compactly: per bundle its time code, datagram size and the
+        command numbers found in it (-1 = a message that is not one of the block's)."""
+        N, k, r = op['n']
+        node = self.objs[op['h'] - 1]
+        kind, ln = op.get('payload', 'small'), op.get('len', 1500)
+        tail = [0] * (ln - 1)
+        self.wire.drain()
+        exc = ''
+        try:
+            with self.s.bind():
+                for i in range(1, N + 1):
+                    if i == r:
+                        raise Boom()
+                    if kind == 'list' or (kind == 'mixed' and i % 50 == 0):
+                        node.setn('freq', [i] + tail)
+                    else:
+                        node.set('amp', i)
+                    if i == k:
+                        yield from self.s.sync()
+                if r == N + 1:
+                    raise Boom()
+        except Boom:
+            pass
+        except Exception as ex:
+            exc = type(ex).__name__
+        big = []
+        for w in self.wire.drain():
+            ids, sync = [], 0
+            for m in w['m']:
+                g = m['g']
+                if m['a'] == '/sync':
+                    sync = 1
+                elif m['a'] == '/n_set' and len(g) == 3 and g[0]['i'] == node.node_id and g[1]['s'] == 'amp' and g[2]['t'] == 'i':
+                    ids.append(g[2]['i'])
+                elif m['a'] == '/n_setn' and len(g) == 3 + ln and g[0]['i'] == node.node_id and g[1]['s'] == 'freq' \
+                        and g[2]['i'] == ln and all(x['t'] == 'i' and x['i'] == 0 for x in g[4:]):
+                    ids.append(g[3]['i'])
+                else:
+                    ids.append(-1)
+            big.append({'t': w['t'], 'sync': sync, 'ids': ids, 'sz': w.get('sz', 0), 'port': w['port']})
+        e = {'op': 'bigbind', 'h': op['h'], 'tk': 'none', 't': 0, 'act': 'addToHead', 'def': op.get('payload', 'small'), 'a': [],
+             'n': [N, k, r], 'cm': 'none', 'ids': [], 'exc': exc, 'em': [], 'big': big}
+        self.ev.append(e)
+
     def run_gen(self, hist):
         for op in hist:
-            if op['op'] == 'bind':
+            if op['op'] == 'bigbind':
+                yield from self.bigbind(op)
+            elif op['op'] == 'bind':
                 self.record({'op': 'bind_enter'}, [], '')
                 raised, exc = 0, ''
                 try:
@@ -491,7 +540,8 @@ def main():
                    initnode=c['initnode'], rt=1 if mode == 'rt' else 0, latency=int(round(s.latency * 1000)), defgroup=s.default_group.node_id,
                    groups=[g.node_id for g in s._default_groups], port=s.addr.port)
         r = Runner(mods, wire, s, cfg)
-        has_sync = any(o['op'] == 'sync' or any(i['op'] == 'sync' for i in o.get('body', [])) for o in case['hist'])
+        has_sync = any(o['op'] == 'sync' or (o['op'] == 'bigbind' and o['n'][1] > 0) or
+                       any(i['op'] == 'sync' for i in o.get('body', [])) for o in case['hist'])
         try:
             ev = r.run(case['hist'], (bm.main, stm.Routine) if (mode == 'rt' and has_sync) else None)
             err = ''
@@ -500,7 +550,8 @@ def main():
             ev, err = r.ev, traceback.format_exc()[-1500:]
         # everything must have gone to this server's address
         for e in ev:
-            for w in e['em']:
+            for w in e['em'] + e.get('big', []):
+                w.pop('sz', None)
                 if w.pop('port') != cfg['port']:
                     e['exc'] = e['exc'] or 'wrong-address'
         out.append(dict(case=ci, cfg=cfg, ev=ev, err=err))
